@@ -136,6 +136,10 @@ def generate(spec):
             ops.append({"op": "end_session"})
             if rng.random() < 0.5:
                 ops.append({"op": "run", "managers": [mgrn], "scenarios": [sc], "equations": eqs, "format": rng.choice(["df", "dict", "json"])})
+        elif channel == "files" and not is_x and r < 0.91 and sum(1 for o_ in ops if o_["op"] == "add_scenario") < 2:
+            # a NEW scenario is registered in the file-based manager (bptk.register_scenarios): none of its siblings' business
+            ops.append({"op": "add_scenario", "manager": mgrn, "name": "late%d" % sum(1 for o_ in ops if o_["op"] == "add_scenario"),
+                        "dict": c06.gen_settings(rng, tpl, base, partial_runspecs=True)})
         elif r < 0.93 or channel != "dict" or is_x:
             ops.append({"op": "reset_cache", "manager": mgrn, "scenario": sc})
         else:
